@@ -246,6 +246,35 @@ func NewCfg(desc string, opts ...url.ParserOption) *Cfg {
 
 var defaultCfg = &Cfg{ID: "default", Desc: "default parser", Parser: url.NewParser()}
 
+// named options, so that a configuration can be rebuilt from its description ("optA+optB")
+var optByName = map[string]func() url.ParserOption{}
+var cfgCache = map[string]*Cfg{}
+
+func cfgFromDesc(desc string) *Cfg {
+	if desc == "" || desc == "default parser" {
+		return defaultCfg
+	}
+	cfgMu.Lock()
+	if c, ok := cfgCache[desc]; ok {
+		cfgMu.Unlock()
+		return c
+	}
+	cfgMu.Unlock()
+	var opts []url.ParserOption
+	for _, n := range strings.Split(desc, "+") {
+		f, ok := optByName[n]
+		if !ok {
+			return nil
+		}
+		opts = append(opts, f())
+	}
+	c := NewCfg(desc, opts...)
+	cfgMu.Lock()
+	cfgCache[desc] = c
+	cfgMu.Unlock()
+	return c
+}
+
 func (c *Cfg) Ensure(d *Driver) {
 	if c.Line != "" {
 		d.Define(c.ID, c.Line)
